@@ -172,7 +172,9 @@ class Rule(Expression):
 
             if self.modifier & SILENT:
                 gen.writeln(f"# Silent rule {self.name!r}")
-                gen.writeln(f"{pairs_var}.extend({inner_pairs})")
+                gen.writeln(f"if {matched_var}:")
+                with gen.block():
+                    gen.writeln(f"{pairs_var}.extend({inner_pairs})")
                 gen.writeln(f"return {matched_var}")
             else:
                 # Tag child pairs with the last tag on the stack
